@@ -2,12 +2,15 @@
 mod arch;
 mod c01;
 mod c02;
+mod c03;
 mod c04;
 mod c05;
 mod repairs;
 mod c09;
 mod c10;
 mod c12;
+mod c13;
+mod c14;
 mod c11;
 mod layers;
 mod gens;
@@ -46,12 +49,15 @@ fn main() {
     let rep = match prop.as_str() {
         "C01" => c01::run(&ctx),
         "C02" => c02::run(&ctx),
+        "C03" => c03::run(&ctx),
         "C04" => c04::run(&ctx),
         "C05" => c05::run(&ctx),
         "C09" => c09::run(&ctx),
         "C10" => c10::run(&ctx),
         "C11" => c11::run(&ctx),
         "C12" => c12::run(&ctx),
+        "C13" => c13::run(&ctx),
+        "C14" => c14::run(&ctx),
         _ => {
             eprintln!("unknown property {prop}");
             std::process::exit(2);
